@@ -34,7 +34,8 @@ class Evaluator(Unit):
             if r.random() < 0.5 and cnt:
                 for _ in range(r.randint(1, 2)):
                     vals[r.randrange(cnt)] = r.choice(BAD)
-            cases.append({"comp": comp, "n": n, "m": m, "shape_ok": shape_ok, "vals": [v if np.isfinite(v) else repr(v) for v in vals]})
+            cases.append({"comp": comp, "n": n, "m": m, "shape_ok": shape_ok, "vals": [v if np.isfinite(v) else repr(v) for v in vals],
+                          "warm": len(cases) % 3 == 1})
         return cases
 
     def impl(self, case):
@@ -57,6 +58,16 @@ class Evaluator(Unit):
             cons_jac=lambda x: mat(m, n), lag_hess=lambda x, y: mat(n, n))
         ev = ValidatingEvaluator(prob, Params())
         x = np.zeros(n)
+        if case.get("warm"):
+            # the same evaluator has already returned good values of every callback: every call is checked all the same
+            good = types.SimpleNamespace(
+                num_vars=n, num_cons=m, obj=lambda x: 1.0, obj_grad=lambda x: np.ones(n), cons=lambda x: np.ones(m),
+                cons_jac=lambda x: sps.coo_matrix(np.ones((m, n))), lag_hess=lambda x, y: sps.coo_matrix(np.eye(n)))
+            ev.problem = good
+            ev.obj(x), ev.obj_grad(x), ev.lag_hess(x, np.zeros(m))
+            if m > 0:
+                ev.cons(x), ev.cons_jac(x)
+            ev.problem = prob
         try:
             if comp == 0:
                 out = [float(ev.obj(x))]
